@@ -6,14 +6,16 @@ W1 = ("workload W1: networks of real beacon Handlers (schemes x (n,t) in {(1,1),
 PART = {
     "C01": {
         "runs": [{"name": "beaconnet", "pkg": P, "run": "^TestVF_C01_Net$", "timeout": "30m", "timeout_thorough": "120m", "race_thorough": True},
-                 {"name": "beaconnet-manual", "pkg": P, "run": "^TestVF_C01_Manual$", "timeout": "30m", "timeout_thorough": "120m"}],
+                 {"name": "beaconnet-manual", "pkg": P, "run": "^TestVF_C01_Manual$", "timeout": "30m", "timeout_thorough": "120m"},
+                 {"name": "syncnet-repair", "pkg": P, "run": "^TestVF_C01_Repair$", "timeout": "30m", "timeout_thorough": "120m"}],
         "rule": W1 + "oracle: every Put reaching a node's base store and every beacon an honest node serves on SyncChain is verified against the harness-generated group key; stores re-opened and "
-                "re-verified at the end; non-trivial = the network produced >= 3 rounds; distinct = distinct scenario parameters || manual network: the chosen-arrival-order workload of C03 (contributor subsets, permutations, hostile partials, one round withheld from one node so that it sees the next round's partials first) with the same verification oracle at every Put",
+                "re-verified at the end; non-trivial = the network produced >= 3 rounds; distinct = distinct scenario parameters || manual network: the chosen-arrival-order workload of C03 (contributor subsets, permutations, hostile partials, one round withheld from one node so that it sees the next round's partials first) with the same verification oracle at every Put || repair path: CorrectPastBeacons/ReSync on a damaged store with scripted peers (40% liars only): every beacon written through the raw store verifies and equals the valid chain",
         "assumptions": ["kyber VerifyRecovered is the reference", "the harness generated the group key itself"],
     },
     "C02": {
         "runs": [{"name": "beaconnet", "pkg": P, "run": "^TestVF_C02_Net", "timeout": "30m", "timeout_thorough": "120m", "race_thorough": True},
-                 {"name": "streams-puts", "pkg": P, "run": "^TestVF_C02_Puts", "timeout": "30m", "timeout_thorough": "60m", "race": True}],
+                 {"name": "streams-puts", "pkg": P, "run": "^TestVF_C02_Puts", "timeout": "30m", "timeout_thorough": "60m", "race": True},
+                 {"name": "streams-memdb-window", "pkg": P, "run": "^TestVF_C02_MemdbWindow$", "timeout": "10m", "timeout_thorough": "30m"}],
         "rule": W1 + "oracle: shadow map per node updated inside the base-store wrapper (head+1 only, write-once, previous-signature link, no Del, no cross-node disagreement), "
                 "then every store is re-opened and scanned (gap-free from genesis, links, equals what was put, equal across nodes incl. previous signatures where stored; networks may mix back-ends). || engine B: 2-4 writers race Puts (next round, future, stale, duplicate, same round with other bytes, wrong link) on the real callback/append/scheme store stack; the recorded ""call/return history is checked with porcupine against a sequential append-only chain and a tap below the stack asserts head+1; non-trivial = at least 3 accepted and one refused Put",
         "assumptions": ["BLS signatures are unique, so byte equality is the right notion of agreement"],
